@@ -264,7 +264,11 @@ std::string run_case(const Args& a) {
       std::vector<EdgeM> edges;
       std::vector<Box2> eb;
       for (int i = 0; i < n; i++) {
-        vec2 p0(r.below(40) + 0.25 * (i % 3), r.below(40)), p1 = p0 + vec2(r.uni(0.1, 3), r.uni(-3, 3));
+        // even kinds: endpoints on a small integer lattice, so that boxes abut exactly (max.x of one == min.x of
+        // another), edges are vertical or horizontal, and boxes coincide; odd kinds: generic coordinates
+        const bool lat = kind % 2 == 0;
+        vec2 p0 = lat ? vec2(r.below(8), r.below(8)) : vec2(r.below(40) + 0.25 * (i % 3), r.below(40));
+        vec2 p1 = lat ? p0 + vec2(r.below(3), (double)r.below(5) - 2) : p0 + vec2(r.uni(0.1, 3), r.uni(-3, 3));
         verts.push_back(p0);
         verts.push_back(p1);
         edges.push_back({2 * i, 2 * i + 1, 1});
